@@ -8,6 +8,10 @@
 (* Scanner.Err() is the reader's error.  The generators parse every        *)
 (* delivered line; with "TruncatedLineWins" \in Dev a parse error on the   *)
 (* truncated line is returned instead of the reader's error (as built).    *)
+(* A reader may fail ONCE (a timeout) and deliver the rest if it is read   *)
+(* again: the scanner never reads again after an error, the call returns   *)
+(* that error all the same; with "ReadRetried" \in Dev something in front  *)
+(* of the scanner consumes the error and reads on (a seeded change did).   *)
 (*                                                                         *)
 (* WRITER.  A sink performs a sequence of Write calls (text: one per row;  *)
 (* encoders: one per root; dry-run: one flush per root or one at the end). *)
@@ -36,9 +40,11 @@ Delivered(doc, k) == SplitNL(SubSeq(DocToks(doc), 1, k))
 
 \* result of a From-Markdown call whose reader fails after k tokens (k = Len(DocToks(doc)): no failure... the
 \* error is still returned at the end of input instead of EOF)
-ReadResult(doc, k, gen) ==
+ReadResult(doc, k, gen, sticky) ==
   LET gs == GenRun(Delivered(doc, k), gen, {}) IN
-  IF gs.status = "err" /\ "TruncatedLineWins" \in Dev /\ gs.errline = Len(Delivered(doc, k))
+  IF ~sticky /\ "ReadRetried" \in Dev
+  THEN (IF GenRun(doc, gen, {}).status = "err" THEN "parseErr" ELSE "nil")   \* the whole document arrives after all
+  ELSE IF gs.status = "err" /\ "TruncatedLineWins" \in Dev /\ gs.errline = Len(Delivered(doc, k))
   THEN "parseErr"                                      \* the truncated last line is malformed
   ELSE IF gs.status = "err" /\ gs.errline < Len(Delivered(doc, k)) THEN "parseErr"   \* a complete line was malformed: not the reader's fault
   ELSE "readerErr"
